@@ -85,6 +85,10 @@ def templates(tier, seed):
     for place in ("xy-attrs", "none"):
         for n in (1, 2):
             tds.append(dict(fam="nested", place=place, n=n))
+    # seeded random group / symbol templates: bodies of 2-4 items over the element vocabulary, parameters in geometry, text and
+    # class; the twin is produced by textual substitution of the bindings
+    for gi in range(80 if tier == "quick" else 1200):
+        tds.append(dict(fam="groupgen", gseed=gi + 5000 * seed))
     for form in ("prev-id", "prev-id-own-id", "prev-noid", "prev-then-ref"):
         for place in ("xy-attrs", "none"):
             tds.append(dict(fam="reuse-prev", form=form, place=place))
@@ -289,6 +293,57 @@ def build(td, wrong=False):
             twin_doc.append(f'<g id="n{i}"{tx} class="a"><rect xy="0 0" wh="[[{kw}]] 2" class="b"/><rect xy="0 5" wh="[[{kw + 1}]] 2" class="b"/></g>')
         d0 = "<svg>" + head + "".join(reuse_doc) + "</svg>"
         d1 = "<svg>" + "".join(twin_doc) + "</svg>"
+    elif fam == "groupgen":
+        rnd = random.Random(8800 + td["gseed"])
+        tag = rnd.choice(["g", "g", "symbol"])
+        where = rnd.choice(["specs", "specs", "defs", "inline-before"]) if tag == "g" else rnd.choice(["specs", "defs"])
+
+        def item(depth=0):
+            k = rnd.choice(["rect", "rectp", "circle", "ellipse", "line", "text", "shapetext", "polyline", "rel", "g", "classy", "expr", "inner-reuse", "if", "loop"])
+            if k == "g" and depth >= 1:
+                k = "rect"
+            return {"rect": lambda: '<rect xy="0 0" wh="$p $q"/>', "rectp": lambda: f'<rect xy="$p {rnd.randint(-5, 9)}" wh="3 $q"/>', "circle": lambda: '<circle cxy="$p $q" r="2"/>',
+                    "ellipse": lambda: '<ellipse cxy="1 $q" rxy="$p 2"/>', "line": lambda: '<line xy1="0 0" xy2="$p $q"/>', "text": lambda: '<text xy="$p 1">$lab</text>',
+                    "shapetext": lambda: '<rect xy="0 $q" wh="9 5" text="$lab"/>', "polyline": lambda: '<polyline points="0 0 $p 0 $p $q"/>', "rel": lambda: '<rect xy="^|h $q" wh="2"/>',
+                    "g": lambda: f"<g>{item(1)}{item(1)}</g>", "classy": lambda: '<circle cxy="0 0" r="$p" class="k-$col big"/>', "expr": lambda: '<rect xy="{{$p + $q}} {{$p * 2}}" wh="1"/>',
+                    "inner-reuse": lambda: '<reuse href="#leaf" w="$q" x="$p" y="0"/>', "if": lambda: '<if test="gt($p, 3)"><rect xy="0 0" wh="$q 1"/></if>',
+                    "loop": lambda: '<loop count="2" loop-var="n"><rect xy="{{$n * 5}} $q" wh="$p 1"/></loop>'}[k]()
+        body = '<rect xy="0 0" wh="1"/>' + "".join(item() for _ in range(rnd.randint(2, 4)))
+        tmpl = f'<{tag} id="t">{body}</{tag}>'
+        leaf = '<rect id="leaf" wh="$w 1"/>'
+        ninst = rnd.choice([1, 2, 2])
+        place = rnd.choice(["xy-attrs", "x", "y", "none"])
+        for i in range(ninst):
+            kw = alloc([(6 + 2 * i, *S), (4 + i, *S)])
+            kp = len(vars_)
+            ra, _ta, nv = inst_attrs(place, kp)
+            alloc([(10 + 20 * i, *V), (-7 * i, *V)][:nv])
+            inst_vars.append(list(range(kw, len(vars_))))
+            lab, col = ("one", "red") if i == 0 else ("two", "blue")
+            dr, dt, cls = deco_attrs(rnd.choice(["plain", "id", "id+class+style"]), i)
+            reuse_doc.append(f'<reuse{dr} href="#t" p="[[{kw}]]" q="[[{kw + 1}]]" lab="{lab}" col="{col}"{ra}/>')
+            tx = {"xy-attrs": f' transform="translate([[{kp}]], [[{kp + 1}]])"', "x": f' transform="translate([[{kp}]], 0)"', "y": f' transform="translate(0, [[{kp}]])"', "none": ""}[place]
+            sub = body.replace("$p", f"[[{kw}]]").replace("$q", f"[[{kw + 1}]]").replace("$lab", lab).replace("$col", col)
+            # the inner reuse of the leaf template, written out by hand
+            sub = re.sub(r'<reuse href="#leaf" w="(\[\[\d+\]\])" x="(\[\[\d+\]\])" y="0"/>', r'<rect xy="\2 0" wh="\1 1" class="leaf"/>', sub)
+            twin_doc.append(f'<g{dt}{tx} class="{cls}">{sub}</g>')
+        specs_leaf = f"<specs>{leaf}</specs>"
+        if where == "specs":
+            d0 = "<svg>" + f"<specs>{leaf}{tmpl}</specs>" + "".join(reuse_doc) + "</svg>"
+            d1 = "<svg>" + "".join(twin_doc) + "</svg>"
+        elif where == "defs":
+            d0 = "<svg>" + specs_leaf + f"<defs>{tmpl}</defs>" + "".join(reuse_doc) + "</svg>"
+            d1 = None
+        else:
+            d0 = "<svg>" + specs_leaf + tmpl + "".join(reuse_doc) + "</svg>"
+            d1 = None
+        if d1 is None:
+            # templates outside <specs> need their parameters to exist where they stand: the twin keeps them (with the same bindings
+            # supplied by an enclosing scope in both documents)
+            scope = f'<g p="2" q="3" lab="L" col="c">'
+            wrapped = f"<defs>{tmpl}</defs>" if where == "defs" else tmpl
+            d0 = "<svg>" + specs_leaf + scope + wrapped + "</g>" + "".join(reuse_doc) + "</svg>"
+            d1 = "<svg>" + specs_leaf + scope + wrapped + "</g>" + "".join(twin_doc) + "</svg>"
     elif fam == "reuse-prev":
         # href="^": the previous element is the template; the rules about ids and classes are the same as for href="#id"
         kw = alloc([(6, *S), (4, *S)])
@@ -344,7 +399,7 @@ def build(td, wrong=False):
         o0, o1 = Out(r.docs[0]["output"]), Out(r.docs[1]["output"])
         obls = []
         obls.append(Obl("specs-not-rendered", PASS if not o0.by_tag("specs") and not o0.by_tag("reuse") else FAIL, ground=True))
-        if fam in ("group", "symbol", "groupfixed", "nested", "empty-binding"):
+        if fam in ("group", "symbol", "groupfixed", "nested", "empty-binding", "groupgen"):
             # a group without a transform is a group translated by (0, 0): compared as such
             for o in (o0, o1):
                 for g in o.by_tag("g"):
